@@ -883,6 +883,19 @@ theorem places_out_of_range (r : Radix) (n k : Int) (hk : k < 1 ∨ k > 10) :
     not_false_eq_true, decide_true, hk', if_false, not_true] at h
   by_cases hw : inWindow r n <;> simpa [hw, Meets] using h
 
+/-- **places_rules**: for every integer of the window — `places` outside 1…10 is #NUM!; inside, a
+    negative result keeps its ten digits, a non-negative one is zero-padded to `places`, #NUM! when
+    `places` is too small. -/
+theorem places_rules (r : Radix) (n : Int) (hw : inWindow r n) :
+    (∀ k : Int, k < 1 ∨ k > 10 → call (dec2 r) (I n) (some (I k)) = .err .num) ∧
+    (∀ k : Nat, 1 ≤ k ∧ k ≤ 10 → call (dec2 r) (I n) (some (I k)) =
+      if n < 0 then .ok (T (refDigits r n))
+      else if (refDigits r n).length > k then .err .num
+      else .ok (T (List.replicate (k - (refDigits r n).length) '0' ++ refDigits r n))) :=
+  ⟨fun k hk => places_out_of_range r n k hk, fun k hk => dec2x_places r n hw k hk⟩
+
+example : inWindow .hex (-549755813888) ∧ (refDigits .bin 5).length > 2 := by decide
+
 /-- **out_of_window_NUM**: DEC2BIN/OCT/HEX of an integer outside the window is #NUM!, with or
     without (any integer) `places`. -/
 theorem out_of_window_NUM (r : Radix) (n : Int) (hw : ¬ inWindow r n) :
